@@ -367,18 +367,55 @@ fn iter_op(st: &mut State, step: &Step, counts: &mut Vec<&'static str>) -> Resul
                 return Ok("ITake noop".into());
             }
             let n = step.arg(0).clamp(0, 6) as usize;
+            let mode = step.arg(1).rem_euclid(5);
             let w = it.wrapper.as_mut().unwrap();
-            let got: Vec<Tok> = track(|| w.by_ref().take(n).collect());
+            // the consumer's side of std's Iterator: adaptors and shortcuts built on next()
+            let (got, how): (Vec<Tok>, &str) = match mode {
+                0 => (track(|| w.by_ref().take(n).collect()), "take"),
+                1 => (track(|| w.nth(n).into_iter().collect()), "nth"),
+                2 => (track(|| w.by_ref().skip(n).next().into_iter().collect()), "skip+next"),
+                3 => (track(|| w.by_ref().step_by(2).take(n).collect()), "step_by(2)+take"),
+                _ => (track(|| w.by_ref().take(n).last().into_iter().collect()), "take+last"),
+            };
+            // the same through the model: which items are delivered, which are stepped over (and
+            // therefore destroyed by the consumer's adaptor), where the source stands afterwards
             let mut want = Vec::new();
-            for _ in 0..n {
-                match expect_next(it) {
-                    Some(id) => want.push(id),
-                    None => break,
+            match mode {
+                0 => {
+                    for _ in 0..n {
+                        match expect_next(it) { Some(id) => want.push(id), None => break }
+                    }
+                }
+                1 | 2 => {
+                    let mut last = None;
+                    for k in 0..=n {
+                        last = expect_next(it);
+                        if last.is_none() { break; }
+                        if k < n { last = None; }
+                    }
+                    want.extend(last);
+                }
+                3 => {
+                    // step_by(2): first item, then every second one; `take(n)` stops pulling after n
+                    let mut k = 0;
+                    while k < n {
+                        let x = if k == 0 { expect_next(it) } else { match expect_next(it) { Some(_) => expect_next(it), None => None } };
+                        match x { Some(id) => want.push(id), None => break }
+                        k += 1;
+                    }
+                }
+                _ => {
+                    let mut last = None;
+                    for _ in 0..n {
+                        match expect_next(it) { Some(id) => last = Some(id), None => break }
+                    }
+                    want.extend(last);
                 }
             }
             let g: Vec<u32> = got.iter().map(|t| t.id).collect();
-            vcheck!(g == want, "iter.sequence_mismatch", "take", "take({}) through the wrapper gave {:?}, expected {:?}", n, g, want);
-            Ok(format!("ITake {} -> {:?}", n, want))
+            vcheck!(g == want, "iter.sequence_mismatch", how, "{}({}) through the wrapper gave {:?}, expected {:?}", how, n, g, want);
+            drop(got);
+            Ok(format!("ITake {} {} -> {:?}", how, n, want))
         }
         "IUnwrap" => match it.wrapper.take() {
             Some(w) => {
@@ -473,7 +510,7 @@ impl Engine for FeedEngine {
                 }
                 "IWrap" => p.push(t, op, &[rng.range(0, 3)]),
                 "INext" => p.push(t, op, &[if c_party && rng.chance(1, 3) { 1 } else { 0 }]),
-                "ITake" => p.push(t, op, &[rng.range(0, 4)]),
+                "ITake" => p.push(t, op, &[rng.range(0, 6), rng.range(0, 4)]),
                 _ => p.push(t, op, &[]),
             }
         }
